@@ -45,24 +45,6 @@ end
 theorem field_mem {d : Doc} {f : String} {fv : FieldVal} (h : d.field? f = some fv) : fv ∈ d.fields :=
   List.mem_of_find?_eq_some h
 
-theorem noEmpty_of_wf {s : Segment} (h : wfSegment s = true) : NoEmptyTerm s := by
-  intro d hd f hmem
-  unfold Doc.terms Doc.tokens at hmem
-  cases hf : d.field? f with
-  | none => simp [hf] at hmem
-  | some fv =>
-    simp only [hf, List.mem_map] at hmem
-    obtain ⟨k, hk, hkt⟩ := hmem
-    unfold wfSegment at h
-    have h1 := List.all_eq_true.mp h d hd
-    have h2 := List.all_eq_true.mp h1 fv (field_mem hf)
-    simp only [Bool.and_eq_true] at h2
-    have h3 := List.all_eq_true.mp h2.2 k hk
-    simp only [Bool.and_eq_true] at h3
-    have := h3.2
-    rw [hkt] at this
-    simp at this
-
 theorem posLeaf_freq_of_wf {s : Segment} (h : wfSegment s = true) : PosLeaf freqLeaf s := by
   intro i hi f t ht
   have hd := live_doc_mem hi
@@ -85,8 +67,7 @@ theorem posLeaf_freq_of_wf {s : Segment} (h : wfSegment s = true) : PosLeaf freq
       obtain ⟨k', hk', rfl⟩ := List.mem_map.mp hx
       have hk'' := (List.mem_filter.mp hk').1
       have h3 := List.all_eq_true.mp h2.2 k' hk''
-      simp only [Bool.and_eq_true, decide_eq_true_eq] at h3
-      exact h3.1
+      simpa using h3
     · intro hnil
       rw [List.map_eq_nil_iff, List.filter_eq_nil_iff] at hnil
       exact hnil k hk (by simp [hkt])
